@@ -139,16 +139,8 @@ _focus = {"i": None}
 P_FOCUS = 0.35
 
 
-def focus_ir(r, p_typ=0.85, p_doc=0.85, returns=True):
-    """
-    Small-scope enumeration: a description of three parameters where ONE entry takes, call after call, every
-    combination of (type shape x prose shape x default shape) at every position, between two plain neighbours.
-    The walk starts at an offset drawn from the run's PRNG and advances by one per call, so a run of n calls covers
-    n consecutive combinations and the thorough tier covers all of them several times.
-    """
-    if _focus["i"] is None:
-        _focus["i"] = r.randrange(F_SIZE)
-    i = _focus["i"] = (_focus["i"] + 1) % F_SIZE
+def _focus_shape(r, i, p_typ, p_doc):
+    """-> (position, entry) for grid index i"""
     pos, i = i % 3, i // 3
     dk, i = F_DEFS[i % len(F_DEFS)], i // len(F_DEFS)
     pk, i = F_DOCS[i % len(F_DOCS)], i // len(F_DOCS)
@@ -190,6 +182,29 @@ def focus_ir(r, p_typ=0.85, p_doc=0.85, returns=True):
             f["default"] = 0 if z else 1.5
         else:
             f["default"] = "```[]```" if z else "```['a']```"
+    return pos, f
+
+
+def focus_ir(r, p_typ=0.85, p_doc=0.85, returns=True):
+    """
+    Small-scope enumeration: a description of three parameters where ONE entry takes, call after call, every
+    combination of (type shape x prose shape x default shape) at every position, between two plain neighbours.
+    The walk starts at an offset drawn from the run's PRNG and advances by one per call, so a run of n calls covers
+    n consecutive combinations and the thorough tier covers all of them several times.
+    """
+    if _focus["i"] is None:
+        _focus["i"] = r.randrange(F_SIZE)
+    i = _focus["i"] = (_focus["i"] + 1) % F_SIZE
+    names = r.sample(NAMES, 3)
+    if r.random() < 0.5:
+        # three enumerated entries at once (entries are converted independently of each other): strides apart so that
+        # they differ in type shape too
+        params = [(nm, _focus_shape(r, (i + k * (F_SIZE // 3 + 1)) % F_SIZE, p_typ, p_doc)[1]) for k, nm in enumerate(names)]
+        ret = None
+        if returns and r.random() < 0.3:
+            ret = {"typ": r.choice(["int", "str", "List[int]"]), "doc": prose(r, 2, 4, punct=False, rich=False)}
+        return {"doc": prose(r, 2, 6, rich=False), "params": params, "returns": ret}
+    pos, f = _focus_shape(r, i, p_typ, p_doc)
     names = r.sample(NAMES, 3)
     params = []
     for k, nm in enumerate(names):
